@@ -48,7 +48,7 @@ func errFork(b *Base) func(x *Exec, call *ast.CallExpr, lhs []ast.Expr, s St) ([
 func readRules(c *Ctx) {
 	R := c.R
 	R.Rule("R02a", "E2", "read_limit is never exceeded: every Send in the read loop is dominated, when a limit applies, by the test sendLimitRemaining - n < 0 (error return) and the remaining budget is decreased by the same n that is sent", 2)
-	R.Rule("R02b", "E2+E4", "the empty blob needs no storage: Get/GetZstd/Contains answer the empty SHA-256 before any index lookup, FindMissing skips it, and the gRPC readers answer size 0 without touching the cache", 5)
+	R.Rule("R02b", "E2+E4", "the empty blob needs no storage: Get/GetZstd/Contains answer the empty SHA-256 before any index lookup, FindMissing skips it, and the gRPC readers answer size 0 without touching the cache", 12)
 	R.Rule("R02c", "E3", "encoding label = encoding delivered: Compressor_ZSTD / Content-Encoding: zstd is set exactly on the paths whose bytes came from Cache.GetZstd", 4)
 
 	if fi := c.P.MustFunc(R, "R02a", "server.(*grpcServer).Read"); fi != nil {
@@ -136,24 +136,65 @@ func readRules(c *Ctx) {
 		R.Check(okDef == 2, "R02a", c.Cfg+"server.(*grpcServer).Read:limit-definitions", c.P.Pos(fi.Decl.Pos()), "the limit applies iff read_limit != 0 on an identity read, with read_limit as the budget", "limitedSend / sendLimitRemaining are not defined from req.ReadLimit as expected")
 	}
 
-	// R02b
-	for _, key := range []string{kGet, "disk.(*diskCache).Contains"} {
+	// R02b (disk): the empty-blob shortcut is a guard made of nothing but the
+	// three tests (kind == CAS, size <= 0 / == 0, hash == emptySha256); its true
+	// branch answers positively without an index lookup, and every index
+	// lookup is reached only through its false branch.
+	for _, key := range []string{kGet, "disk.(*diskCache).Contains", "disk.(*diskCache).findMissingLocalCAS"} {
 		fi := c.P.MustFunc(R, "R02b", key)
 		if fi == nil {
 			continue
 		}
 		var base *Base
-		shortcut := 0
+		shortcut, lookups := 0, 0
 		base = NewBase(Hooks{
+			Cond: func(x *Exec, cond ast.Expr, truth bool, s St) ([]St, bool) {
+				conj := flattenAnd(cond)
+				hasEmpty, pure := false, true
+				for _, cj := range conj {
+					switch classifyEmptyConjunct(x.Fn.Info, cj) {
+					case "hash":
+						hasEmpty = true
+					case "kind", "size":
+					default:
+						pure = false
+					}
+				}
+				if !hasEmpty {
+					return nil, false
+				}
+				outs := base.refineNoHook(x, cond, truth, s)
+				for i := range outs {
+					if truth {
+						outs[i] = outs[i].Set("emptyIs", "1")
+					} else if pure {
+						outs[i] = outs[i].Set("emptyExcl", "1")
+					}
+				}
+				return outs, true
+			},
 			EveryCall: func(x *Exec, call *ast.CallExpr, s St) []St {
 				k := calleeKey(x.Fn.Info, call)
 				if k == "disk.(*SizedLRU).Get" || k == kAvail {
+					lookups++
+					R.Check(s.Get("emptyExcl") == "1", "R02b", fmt.Sprintf("%s%s:%s#%d:not-empty", c.Cfg, key, k[strings.LastIndex(k, ".")+1:], callOrdinal(x, call)), c.P.Pos(call.Pos()),
+						"the index is consulted only after the empty-blob shortcut (kind == CAS, size <= 0, hash == emptySha256 and nothing else) was found not to apply",
+						"the empty blob can reach the index lookup: the shortcut is missing or carries an additional condition", x.Trace()...)
 					return []St{s.Set("looked", "1")}
 				}
 				return []St{s}
 			},
+			PreAssign: func(x *Exec, as *ast.AssignStmt, s St) St {
+				// findMissingLocalCAS: blobs[i] = nil on the shortcut
+				if s.Get("emptyIs") == "1" && s.Get("looked") == "" && len(as.Rhs) == 1 && exprStr(as.Rhs[0]) == "nil" {
+					if _, ok := ast.Unparen(as.Lhs[0]).(*ast.IndexExpr); ok {
+						shortcut++
+					}
+				}
+				return s
+			},
 			Exit: func(x *Exec, ret *ast.ReturnStmt, s St) {
-				if hasEmptyShaAtom(s, "T") && s.Get("looked") == "" && ret != nil {
+				if s.Get("emptyIs") == "1" && s.Get("looked") == "" && ret != nil && len(ret.Results) > 0 {
 					r0 := exprStr(ret.Results[0])
 					if (key == kGet && strings.HasPrefix(r0, "io.NopCloser")) || (key != kGet && r0 == "true") {
 						shortcut++
@@ -163,28 +204,8 @@ func readRules(c *Ctx) {
 		})
 		x := NewExec(c.P.FlowOf(fi), base)
 		x.Run(newSt())
-		R.Check(shortcut > 0, "R02b", c.Cfg+key+":empty-shortcut", c.P.Pos(fi.Decl.Pos()), key+" answers the empty blob (hash == emptySha256) positively before any index lookup", "no positive return for the empty SHA-256 that precedes the index lookup was found")
-	}
-	if fi := c.P.MustFunc(R, "R02b", "disk.(*diskCache).findMissingLocalCAS"); fi != nil {
-		ok := false
-		ast.Inspect(fi.Decl.Body, func(n ast.Node) bool {
-			rs, k := n.(*ast.RangeStmt)
-			if !k || len(rs.Body.List) == 0 {
-				return true
-			}
-			if is, k := rs.Body.List[0].(*ast.IfStmt); k && strings.Contains(exprStr(is.Cond), "emptySha256") && strings.Contains(exprStr(is.Cond), "SizeBytes == 0") {
-				n := len(is.Body.List)
-				if br, k := is.Body.List[n-1].(*ast.BranchStmt); k && br.Tok == token.CONTINUE {
-					for _, st := range is.Body.List {
-						if as, k := st.(*ast.AssignStmt); k && exprStr(as.Rhs[0]) == "nil" {
-							ok = true
-						}
-					}
-				}
-			}
-			return true
-		})
-		R.Check(ok, "R02b", c.Cfg+"findMissingLocalCAS:empty-first", c.P.Pos(fi.Decl.Pos()), "the empty digest is marked found first thing in each iteration, before the index lookup", "the empty-digest shortcut is not the first statement of the loop body")
+		R.Check(shortcut > 0, "R02b", c.Cfg+key+":empty-shortcut", c.P.Pos(fi.Decl.Pos()), key+" answers the empty blob (hash == emptySha256) positively before any index lookup", "no positive answer for the empty SHA-256 that precedes the index lookup was found")
+		R.Check(lookups > 0, "R02b", c.Cfg+key+":lookups", c.P.Pos(fi.Decl.Pos()), "the index lookups of "+key+" were found", "no index lookup found")
 	}
 	for _, key := range []string{"server.(*grpcServer).getBlobData", "server.(*grpcServer).Read"} {
 		fi := c.P.MustFunc(R, "R02b", key)
@@ -596,4 +617,54 @@ func keysOf(m map[string]bool) []string {
 	}
 	sort.Strings(out)
 	return out
+}
+
+
+// flattenAnd returns the conjuncts of a && b && c.
+func flattenAnd(e ast.Expr) []ast.Expr {
+	e = ast.Unparen(e)
+	if be, ok := e.(*ast.BinaryExpr); ok && be.Op == token.LAND {
+		return append(flattenAnd(be.X), flattenAnd(be.Y)...)
+	}
+	return []ast.Expr{e}
+}
+
+// classifyEmptyConjunct recognises the three tests of the empty-blob
+// shortcut by their resolved operands: a comparison with the empty SHA-256
+// constant ("hash"), with the CAS kind constant ("kind"), or of a size with
+// zero by == or <= ("size"); anything else is "".
+func classifyEmptyConjunct(info *types.Info, e ast.Expr) string {
+	be, ok := ast.Unparen(e).(*ast.BinaryExpr)
+	if !ok {
+		return ""
+	}
+	constOf := func(x ast.Expr) (string, bool) {
+		if tv, ok := info.Types[x]; ok && tv.Value != nil {
+			return tv.Value.ExactString(), true
+		}
+		return "", false
+	}
+	for _, pair := range [][2]ast.Expr{{be.X, be.Y}, {be.Y, be.X}} {
+		v, isConst := constOf(pair[1])
+		if !isConst {
+			continue
+		}
+		if _, otherConst := constOf(pair[0]); otherConst {
+			continue
+		}
+		t := info.TypeOf(pair[0])
+		switch {
+		case be.Op == token.EQL && v == emptyShaLit:
+			return "hash"
+		case be.Op == token.EQL && t != nil && strings.HasSuffix(t.String(), "cache.EntryKind"):
+			if id, ok := ast.Unparen(pair[1]).(*ast.SelectorExpr); ok && id.Sel.Name == "CAS" {
+				return "kind"
+			}
+		case v == "0" && pair[1] == be.Y && (be.Op == token.EQL || be.Op == token.LEQ):
+			return "size"
+		case v == "0" && pair[1] == be.X && be.Op == token.EQL:
+			return "size"
+		}
+	}
+	return ""
 }
